@@ -146,7 +146,7 @@ fn run_one(i: usize, b: &Value) -> anyhow::Result<Value> {
                     }
                 } else if op == "fecho" {
                     // the follower routed a publish to the leader and echoes the value (ConfigCmd::SetTmpValue)
-                    let r = f.call(&json!({"op":"cfg_tmp","data_id":s["k"],"group":crate::smreplay::GROUP,"tenant":crate::smreplay::cfg_tenant(s["k"].as_str().unwrap_or("")),"value":s["v"]}))?;
+                    let r = f.call(&json!({"op":"cfg_tmp","data_id":s["k"],"group":crate::smreplay::GROUP,"tenant":crate::smreplay::cfg_tenant(s["k"].as_str().unwrap_or("")),"value":crate::smreplay::expand_content(&s["v"])}))?;
                     if r["res"] != "ok" {
                         fail!(k, "follower echo failed", json!("ok"), r);
                     }
